@@ -104,6 +104,17 @@ func TestPrivateKey(priv []byte) int {
 	if l > 0 {
 		return l
 	}
+
+	// the value 0 is not a valid private key whatever the length of its encoding;
+	// all bytes are accumulated so that timing does not depend on the contents
+	var nonZero byte
+	for _, b := range priv {
+		nonZero |= b
+	}
+	if nonZero == 0 {
+		return -1
+	}
+
 	if l < 0 {
 		return 0
 	}
